@@ -141,6 +141,7 @@ import (
 	"fmt"
 	"os"
 	"runtime"
+	"runtime/debug"
 	"strings"
 	"testing"
 
@@ -159,6 +160,9 @@ func runOneVerifReplay(path string, entry func()) (out string) {
 				return
 			}
 			out = fmt.Sprintf("PANIC %%v", r)
+			if os.Getenv("VERIF_REPLAY_STACK") != "" {
+				out += " | " + strings.Replace(string(debug.Stack()), "\\n", " ; ", -1)
+			}
 		}
 	}()
 	verifrt.Reset(path)
